@@ -7,9 +7,11 @@ import (
 	"os"
 	"path/filepath"
 	"sync"
+	"time"
 
 	"github.com/Comcast/sheens/core"
 	"github.com/Comcast/sheens/crew"
+	"github.com/Comcast/sheens/interpreters/ecmascript"
 	"github.com/Comcast/sheens/match"
 	"github.com/Comcast/sheens/zzverif/verif"
 )
@@ -383,4 +385,103 @@ func sameNodes(a, b map[string]string) bool {
 		}
 	}
 	return true
+}
+
+// ---- emissions are fed back: each exactly once ----
+
+// "emit2": on {"trigger":..} an ECMAScript action emits two messages for machine "b" in ONE stride
+const emit2Source = `_.out({"to":"b","go":"m1"});
+_.out({"to":"b","go":"m2"});
+return _.bindings;`
+
+const emit2YAML = `{"name":"emit2","nodes":{
+ "start":{"branching":{"type":"message","branches":[{"pattern":{"trigger":"?t"},"target":"emit"}]}},
+ "emit":{"action":{"interpreter":"ecmascript","source":"_.out({\"to\":\"b\",\"go\":\"m1\"});\n_.out({\"to\":\"b\",\"go\":\"m2\"});\nreturn _.bindings;"},
+         "branching":{"branches":[{"target":"done"}]}},
+ "done":{}}}`
+
+// "collect": ends at "both" iff it received m1 and m2 exactly once each (in either order); a repeated
+// message leads to "dup", a missing one leaves it on the way
+const collectYAML = `{"name":"collect","nodes":{
+ "start":{"branching":{"type":"message","branches":[{"pattern":{"go":"m1"},"target":"n1"},{"pattern":{"go":"m2"},"target":"n2"}]}},
+ "n1":{"branching":{"type":"message","branches":[{"pattern":{"go":"m2"},"target":"both"},{"pattern":{"go":"m1"},"target":"dup"}]}},
+ "n2":{"branching":{"type":"message","branches":[{"pattern":{"go":"m1"},"target":"both"},{"pattern":{"go":"m2"},"target":"dup"}]}},
+ "both":{"branching":{"type":"message","branches":[{"pattern":{"go":"?again"},"target":"dup"}]}},
+ "dup":{}}}`
+
+func msgBranch(pattern map[string]interface{}, target string) *core.Branch {
+	return &core.Branch{Pattern: pattern, Target: target}
+}
+
+func emit2Spec() *core.Spec {
+	s := &core.Spec{
+		Name: "emit2",
+		Nodes: map[string]*core.Node{
+			"start": {Branches: &core.Branches{Type: "message", Branches: []*core.Branch{msgBranch(map[string]interface{}{"trigger": "?t"}, "emit")}}},
+			"emit": {ActionSource: &core.ActionSource{Interpreter: "ecmascript", Source: emit2Source},
+				Branches: &core.Branches{Branches: []*core.Branch{{Target: "done"}}}},
+			"done": {},
+		},
+	}
+	if err := s.Compile(context.Background(), core.InterpretersMap{"ecmascript": ecmascript.NewInterpreter()}, true); err != nil {
+		panic(err)
+	}
+	return s
+}
+
+func collectSpec() *core.Spec {
+	go1, go2 := map[string]interface{}{"go": "m1"}, map[string]interface{}{"go": "m2"}
+	s := &core.Spec{
+		Name: "collect",
+		Nodes: map[string]*core.Node{
+			"start": {Branches: &core.Branches{Type: "message", Branches: []*core.Branch{msgBranch(go1, "n1"), msgBranch(go2, "n2")}}},
+			"n1":    {Branches: &core.Branches{Type: "message", Branches: []*core.Branch{msgBranch(go2, "both"), msgBranch(go1, "dup")}}},
+			"n2":    {Branches: &core.Branches{Type: "message", Branches: []*core.Branch{msgBranch(go1, "both"), msgBranch(go2, "dup")}}},
+			"both":  {Branches: &core.Branches{Type: "message", Branches: []*core.Branch{msgBranch(map[string]interface{}{"go": "?again"}, "dup")}}},
+			"dup":   {},
+		},
+	}
+	if err := s.Compile(context.Background(), nil, true); err != nil {
+		panic(err)
+	}
+	return s
+}
+
+// VerifC16Emissions: one action emits two messages in a single stride; the service feeds each of them back
+// (asynchronously) exactly once: the addressee ends having seen each once, and the host is told of each once.
+func VerifC16Emissions() {
+	verif.MapOrderInsertion(true)
+	ctx, cancel := context.WithCancel(context.Background())
+	defer cancel()
+	s, cleanup := c16Service(ctx)
+	defer cleanup()
+	if verif.Symbolic() {
+		verifSpecs["emit2"] = emit2Spec()
+		verifSpecs["collect"] = collectSpec()
+	} else {
+		if err := os.WriteFile(filepath.Join(s.specDir, "emit2.yaml"), []byte(emit2YAML), 0644); err != nil {
+			panic(err)
+		}
+		if err := os.WriteFile(filepath.Join(s.specDir, "collect.yaml"), []byte(collectYAML), 0644); err != nil {
+			panic(err)
+		}
+	}
+	told := make(chan interface{}, 8)
+	s.Emitted = told
+	verif.Assert("add-a", s.AddMachine(ctx, "emit2", "a", "", nil) == nil)
+	verif.Assert("add-b", s.AddMachine(ctx, "collect", "b", "", nil) == nil)
+	_, err := s.Process(ctx, map[string]interface{}{"to": "a", "trigger": "now"}, nil)
+	verif.Assert("process-ok", err == nil)
+	// the emitted messages are processed asynchronously: let that finish
+	if verif.Symbolic() {
+		verif.Quiesce()
+	} else {
+		time.Sleep(300 * time.Millisecond)
+	}
+	s.crew.RLock()
+	node := s.crew.Machines["b"].State.NodeName
+	s.crew.RUnlock()
+	verif.Assert("each-emission-processed-exactly-once", node == "both")
+	verif.Assert("host-told-of-each-emission-once", len(told) == 2)
+	verif.Reach("emissions-done")
 }
